@@ -701,7 +701,7 @@ func c40(r *Run) {
 	w := r.W
 	pk := H + "/keys"
 	r.rule("C40.R1", "K6", "keys package predicates", 8)
-	r.rule("C40.R2", "K1", "write path verifies the value against the key suffix before any store; declared keys must be Valid; metering fails on undecodable keys", 4)
+	r.rule("C40.R2", "K1", "write path verifies the value against the key suffix before any store; declared keys must be Valid; the simulation scope grants only recordable keys; metering fails on undecodable keys", 5)
 
 	expectRet := func(fnName_ string, want map[string]string) {
 		f := r.fn(w, "C40.R1", fnName_)
@@ -774,6 +774,18 @@ func c40(r *Run) {
 	add := r.fn(w, "C40.R2", "("+H+"/state.Keys).Add")
 	if add != nil {
 		r.requireEffect(w, "C40.R2", "Keys.Add:requires-Valid", add, "mapupdate p0[p1] = *", "keys.Valid(p1)")
+	}
+	// every scope refuses a key that is not Valid: the recording scope of the simulation grants exactly what it
+	// could record (Keys.Add checks Valid), and the declared scope grants only keys present in a map built by Add
+	if sh := r.fn(w, "C40.R2", "("+H+"/state.SimulatedKeys).Has"); sh != nil {
+		outs := returnOutcomes(sh)
+		okk := len(outs) > 0
+		for _, o := range outs {
+			if !(len(o.Vals) == 1 && term(o.Vals[0]) == "(state.Keys).Add(p0, string(p1), p2)") {
+				okk = false
+			}
+		}
+		r.check(okk, "C40.R2", "SimulatedKeys.Has:grants-only-recordable-keys", w.rel(sh.Pos()), "returns Keys.Add(key, perm)", "the simulation scope grants access to a key it cannot record (shorter than the chunk suffix): reads and removals of a malformed key succeed under simulation and the reported key set omits it")
 	}
 	un := r.fn(w, "C40.R2", nmUnits)
 	if un != nil {
